@@ -178,6 +178,9 @@ package nsqlookupd
 //@   onreturn r3cClientFound := category == "client" ? result : r3cClientFound
 //@   onreturn r3cClientKey := category == "client" ? key : r3cClientKey
 //@   onreturn r3cClientSub := category == "client" ? subkey : r3cClientSub
+//   (round 6, area M) the answer for the watched topic registration, for doNodes' tombstone flags
+//@   onreturn r6MWatchTopicFound := (category == "topic" && key == r6MWatchTopic && subkey == "") ? result : r6MWatchTopicFound
+//@   onreturn r6MWatchTopicFinds := r6MWatchTopicFinds + ((category == "topic" && key == r6MWatchTopic && subkey == "") ? 1 : 0)
 //@   nochan
 //@   loop 0
 //@     invariant fresh(results) && ((len(retProducers) == 0 && cap(retProducers) == 0) || fresh(retProducers))
